@@ -126,6 +126,9 @@ func readHeader(f *os.File) (*header, error) {
 	if err != nil {
 		return nil, err
 	}
+	if h.chunkSize == 0 {
+		return nil, errors.New("invalid chunk size 0 in header")
+	}
 
 	var numOffsets int64
 	err = binary.Read(f, binary.LittleEndian, &numOffsets)
@@ -256,6 +259,12 @@ func GetUncompressedReadCloser(zstd zstdimpl.ZstdImpl, f *os.File, expectedSize 
 	chunkNum := int64(offset / int64(h.chunkSize))
 	remainder := offset % int64(h.chunkSize)
 
+	if chunkNum+1 >= int64(len(h.chunkOffsets)) {
+		_ = f.Close()
+		return nil, fmt.Errorf("offset %d is beyond the %d chunks of size %d in the header",
+			offset, len(h.chunkOffsets)-1, h.chunkSize)
+	}
+
 	if chunkNum > 0 {
 		_, err = f.Seek(h.chunkOffsets[chunkNum], io.SeekStart)
 		if err != nil {
@@ -370,6 +379,12 @@ func GetZstdReadCloser(zstd zstdimpl.ZstdImpl, f *os.File, expectedSize int64, o
 	// Find the first relevant chunk.
 	chunkNum := int64(offset / int64(h.chunkSize))
 	remainder := offset % int64(h.chunkSize)
+
+	if chunkNum+1 >= int64(len(h.chunkOffsets)) {
+		_ = f.Close()
+		return nil, fmt.Errorf("offset %d is beyond the %d chunks of size %d in the header",
+			offset, len(h.chunkOffsets)-1, h.chunkSize)
+	}
 
 	if chunkNum > 0 {
 		_, err = f.Seek(h.chunkOffsets[chunkNum], io.SeekStart)
